@@ -60,7 +60,7 @@ impl Case10 {
     fn check(&self) -> Result<Run, (String, String)> {
         let e = |k: &str, d: String| Err((k.to_string(), d));
         let mut ex = Exec::new();
-        let mut m = RefState::new(1 << 14);
+        let mut m = RefState::new(crate::histcase::dir_budget_for(&self.hist));
         // per node: the single-pass gradients since the last clear
         let mut since: HashMap<usize, Vec<G>> = HashMap::new();
         let mut run = Run { passes: 0, overlapping: false, compared: 0, exact: true };
